@@ -438,6 +438,12 @@ def main():
                 d = nested_apply(d, o, base_nd)
             got, again = plain(list(d)), plain(list(d))
             want = nested_reference(ch)
+            # the rows of ONE pass kept, and their inner streams read twice: a stream inside a row is a stream, too
+            rows_kept = list(d)
+            kept1, kept2 = plain(rows_kept), plain(rows_kept)
+            if (kept1 != want or kept2 != want) and len(direct) < 20:
+                direct.append({"law": "the inner stream of a row obtained from a stream can be iterated twice and gives the same rows",
+                               "chain": repr(ch), "first_reading": kept1, "second_reading": kept2, "want": want})
             niter_cases.append("(%s, %s, %s, (Some %s))" % (NTABLE, NROWS, clist(ch, c_nop), clist(got, c_tree)))
             nspec_cases.append("(%s, %s, %s, %s)" % (NTABLE, NROWS, clist(ch, c_nop), clist(want, c_tree)))
             if got != want or again != want:
